@@ -33,6 +33,11 @@ class ToolError(Exception):
     pass
 
 
+class StopReplay(Exception):
+    """Raised by a `replay_sink` of tlc() when the consumer of the REPLAY lines is gone or has seen enough:
+    TLC (the producer) is stopped and tlc() returns what it has, with res["stopped"] = True."""
+
+
 def seed():
     try:
         return int(os.environ.get("VERIF_SEED", "1"))
@@ -158,19 +163,47 @@ def tlc(module, cfg, pid, workers=8, timeout=900, simulate=None, depth=None, cov
     res = {"generated": 0, "distinct": 0, "queue": 0, "depth": 0, "violated": None, "error": None,
            "replays": [], "actions": {}, "n_replays": 0}
     keep = []
+    try:
+        return _tlc_read(p, res, keep, replay_sink, coverage, simulate, module, cfg, timeout, meta, t0)
+    except BaseException:
+        _stop_process(p)      # never leave a TLC behind (it would block on a pipe nobody reads)
+        raise
+
+
+def _stop_process(p):
+    """SIGTERM to `timeout` (which forwards it to the JVM), then SIGKILL to both."""
+    if p.poll() is not None:
+        return
+    try:
+        p.terminate()
+        p.wait(timeout=15)
+    except Exception:
+        subprocess.run(["pkill", "-KILL", "-P", str(p.pid)], stdout=subprocess.DEVNULL, stderr=subprocess.DEVNULL)
+        try:
+            p.kill()
+            p.wait(timeout=10)
+        except Exception:
+            pass
+
+
+def _tlc_read(p, res, keep, replay_sink, coverage, simulate, module, cfg, timeout, meta, t0):
     for line in p.stdout:
         line = line.rstrip("\n")
         m = _RE_REPLAY.match(line)
         if m:
-            res["n_replays"] += 1
             try:
                 obj = json.loads(json.loads('"' + m.group(1) + '"'))
             except ValueError as e:
                 raise ToolError("cannot parse REPLAY line: %s (%s)" % (line[:200], e))
             if replay_sink is not None:
-                replay_sink(obj)
+                try:
+                    replay_sink(obj)
+                except StopReplay as e:
+                    res["stopped"] = str(e) or "consumer gone"
+                    break
             else:
                 res["replays"].append(obj)
+            res["n_replays"] += 1
             continue
         if len(keep) < 4000:
             keep.append(line)
@@ -195,6 +228,14 @@ def tlc(module, cfg, pid, workers=8, timeout=900, simulate=None, depth=None, cov
                 res["actions"][m.group(1)] = (int(m.group(7)), int(m.group(8)))
         if line.startswith("Error:") and not res["error"]:
             res["error"] = line
+    if res.get("stopped"):
+        _stop_process(p)
+        res["rc"] = p.returncode
+        res["wall_s"] = time.time() - t0
+        res["out"] = "\n".join(keep[-400:])
+        shutil.rmtree(meta, ignore_errors=True)
+        log("TLC %s/%s: stopped after %d REPLAY lines (%s)" % (module, cfg, res["n_replays"], res["stopped"]))
+        return res
     rc = p.wait()
     res["rc"] = rc
     res["wall_s"] = time.time() - t0
